@@ -581,12 +581,12 @@ def run(R):
                 [x.hash for x in got[0].refs[got[0].ref_offset:]] == [x.hash for x in base.refs[st_r:end_r]]
             R.check(ok, 'foreign-slice-window', f'VmCellSlice window bits {st_b}..{end_b} refs {st_r}..{end_r} parsed wrongly: {mon.srepr(got)}')
             R.count('foreign_slice_windows')
-    for i in range((60 if quick else 20000) // R.nshards + 1):
+    for i in range((300 if quick else 20000) // R.nshards + 1):
         st, e = mon.call(mutation_history, R, B, vm, rng)
         if st == 'exc':
             R.violation(f'history-raises-{type(e).__name__}', f'using caller-held tuples between serialisations raised {e!r}', {})
         R.case(mon.fp('hist', i, R.shard))
-    n = (300 if quick else 200000) // R.nshards + 1
+    n = (1000 if quick else 200000) // R.nshards + 1
     for i in range(n):
         depth = rng.choice([1, 1, 2, 3, 5, 12])
         items = [gen_value(rng, conts=rng.random() < 0.6) for _ in range(depth)]
